@@ -225,7 +225,7 @@ func runC16Mixed(c *Ctx) {
 	w := GetATWorld()
 	xa := w.OpenXA()
 	rng := NewRng(c.Seed + 1616)
-	n := c.Budget(40, 2000)
+	n := c.Budget(40, 600)
 	for i := 0; i < n; i++ {
 		r := rng.Fork()
 		cid := fmt.Sprintf("c16-m%d", i)
